@@ -77,10 +77,18 @@ pub async fn create_remote_dirs(
         }
     }
 
-    // Pipe directory list via stdin, NUL-separated, and mkdir each
+    // Pipe directory list via stdin, NUL-separated, and mkdir each. The remote side must not
+    // act on a list it received only in part (if this process dies mid-write, `xargs -0`
+    // would create a directory named by the cut-off last record — possibly where a file
+    // has to land): stage the list under a reserved name, check its byte count, then mkdir.
+    let root_q = remote_root.replace('\\', "\\\\").replace('\'', "\\'");
+    let staged = format!("{root_q}/.copia-dir-list.copia-tmp");
+    let n = dir_list.len();
     let mut child = tokio::process::Command::new("ssh")
         .arg(host)
-        .arg("xargs -0 mkdir -p")
+        .arg(format!(
+            "mkdir -p $'{root_q}' && {{ cat > $'{staged}' && test \"$(wc -c < $'{staged}')\" -eq {n} && xargs -0 mkdir -p < $'{staged}' && rm -f -- $'{staged}'; }} || {{ rm -f -- $'{staged}'; false; }}"
+        ))
         .stdin(std::process::Stdio::piped())
         .stdout(std::process::Stdio::null())
         .stderr(std::process::Stdio::piped())
